@@ -13,6 +13,14 @@ import (
 func wIn(ps *paramSet, v *big.Int) Input { return Input{Kind: "w", Limbs: limbsOf(v, ps)} }
 func cIn(v *big.Int) Input               { return Input{Kind: "c", Val: v.String()} }
 
+func lowBitsOf(v *big.Int, n int) []int {
+	r := make([]int, n)
+	for i := range r {
+		r[i] = int(v.Bit(i))
+	}
+	return r
+}
+
 func directedCases(ps *paramSet, native string) []Case {
 	q := ps.Q
 	one := big.NewInt(1)
@@ -50,6 +58,13 @@ func directedCases(ps *paramSet, native string) []Case {
 		mk([]Input{wIn(ps, maxv)}, []Op{{Op: "MulConst", A: []int{0}, K: big1}, {Op: "Sum", A: []int{1, 1, 1, 1, 1, 1, 1, 1}}, {Op: "Reduce", A: []int{2}}}, 3),
 		mk([]Input{wIn(ps, maxv)}, []Op{{Op: "MulNoReduce", A: []int{0, 0}}, {Op: "MulNoReduce", A: []int{1, 0}}, {Op: "MulNoReduce", A: []int{2, 1}}, {Op: "Sub", A: []int{0, 3}}, {Op: "BitsRoundTrip", A: []int{3}}}, 4, 5),
 		mk([]Input{wIn(ps, maxv)}, []Op{{Op: "Add", A: []int{0, 0}}, {Op: "Add", A: []int{1, 1}}, {Op: "Add", A: []int{2, 2}}, {Op: "ToBits", A: []int{3}}, {Op: "ToBits", A: []int{1}}, {Op: "BitsRoundTrip", A: []int{3}}}, 4),
+		// elements on fewer limbs than the modulus (short constants, FromBits of few bits)
+		mk([]Input{cIn(new(big.Int).Mod(q, pow2(ps.W))), wIn(ps, qm1)}, []Op{{Op: "IsZero", A: []int{0}}, {Op: "AssertIsDifferent", A: []int{0, 1}}}),
+		mk([]Input{cIn(one), wIn(ps, qm1)}, []Op{{Op: "AssertIsInRange", A: []int{0}}, {Op: "ToBitsCanonical", A: []int{0}}}),
+		mk([]Input{wIn(ps, qm1)}, []Op{{Op: "FromBits", S: lowBitsOf(q, int(ps.W))}, {Op: "IsZero", A: []int{1}}, {Op: "AssertIsInRange", A: []int{1}}, {Op: "ToBitsCanonical", A: []int{1}},
+			{Op: "Add", A: []int{1, 1}}, {Op: "Add", A: []int{2, 1}}, {Op: "Mul", A: []int{2, 3}}, {Op: "Mul", A: []int{4, 4}}}, 5),
+		mk([]Input{cIn(new(big.Int).Sub(pow2(ps.W), one)), wIn(ps, qm1)}, []Op{{Op: "Add", A: []int{0, 0}}, {Op: "Add", A: []int{2, 0}}, {Op: "Mul", A: []int{2, 3}},
+			{Op: "Eval", A: []int{0}, T: [][]int{{0, 0}, {0, 0}}, C: []int{255, 7}}}, 4),
 		// shapes behind the robustness findings
 		mk([]Input{wIn(ps, qm1), wIn(ps, maxv)}, []Op{{Op: "Mul", A: []int{0, 1}}, {Op: "MulNoReduce", A: []int{0, 1}}, {Op: "Select", A: []int{3, 2}, S: []int{1}}}, 4, 2),
 		mk([]Input{wIn(ps, big.NewInt(5))}, []Op{{Op: "MulConst", A: []int{0}, K: "-3"}}, 1),
